@@ -32,6 +32,8 @@ CFG = dict(
     streams=[dict(name="c16", n=dict(quick=150, thorough=6000)),
              dict(name="c16prims", n=dict(quick=400, thorough=20000))],
     trusted=T_COMMON + [
+        "Model/RenderPrims.lean is a hand transcription of the arithmetic of Sphere.Hit/BoundingBox, XYRectangle.Hit/BoundingBox, rayIntersectsTri, "
+        "Triangle.Hit, Mesh.Hit/Hit2 (rendering/*.go); tied by bit-exact correspondence (stream c16prims: flag, Distance, Point, box)",
         "Model/Tree.lean is a hand transcription of trees/octree.go, rendering/bvh.go, rendering/hit.go and of "
         "AABB.IntersectsRayInRange (pointer-based helper); tied by bit-exact correspondence of bounds, visit order of every "
         "query result and closest point on points / line strips / boxes (Float run of the same definitions)",
@@ -46,13 +48,21 @@ CFG = dict(
         "not the nearest by less than rounding: the oracle compares by distance with relative tolerance 1e-9 (ties aside)",
         "degenerate (zero-area) triangles and boxes with negative extents are excluded by hypothesis in prim_closest_in_box / "
         "octree_closest_eq_scan_of_input (the code divides by the normal's length for such triangles: NaN)",
-        "BVH: theorems hold for every tree satisfying BInv (boxes cover; NewBVHTree establishes it: bvh_build_covers) and for primitives "
-        "whose Hit reports the first hit exactly when it is within the range, and only where the slab test accepts their box "
-        "(slab_sound: true whenever the hit point is in the box, range non-empty, no zero direction component); that rendering.Triangle / "
-        "Sphere satisfy this contract is not proved (ray-triangle / ray-sphere arithmetic is not modelled) — checked by the oracles "
-        "c16.holds.bvh / bvh_scan; the BVH itself has no model-vs-impl line (its shape is random), only oracles. "
-        "The triangle Hit compares the distance from ray.At(min) with max (rendering/mesh.go:53), so the contract holds for "
-        "min = 0 only; the harness uses min = 0 for rendering",
+        "BVH / rendering primitives (round 2): the primitive contract is now PROVED for rendering.Sphere (NewSphere, and NewAnimatedSphere whose "
+        "centre at the ray's time lies coordinatewise between the centres at the BVH's start and end time; radius >= 0), XYRectangle (ray not "
+        "parallel to its plane) and Triangle (minDistance = 0), for unit-direction rays: Point = ray.At(Distance), inside BoundingBox(), Distance "
+        "within the range, first hit reported exactly when within the range — about Model/RenderPrims.lean, a hand transcription of the Hit / "
+        "BoundingBox arithmetic (the methods store through *HitRecord with interface- and map-typed fields: outside the translator's subset; the "
+        "rays ARE regenerated: Gen/Render.lean), tied by the bit-exact c16.prim.* lines. Remaining: (a) empty-interior ranges min = max: "
+        "bvh_differs_on_point_range proves HitList hits and a BVH node misses (slab test rejects every [m,m]); reproduced on the real code "
+        "(unit sphere, ray (0,0,-5)->+z, range [4,4]: HitList true at 4, BVHNode false); (b) triangles with minDistance != 0 (mesh.go:53 compares "
+        "the distance from ray.At(min) with max); (c) animated spheres outside the hypothesis (non-linear animation, ray time outside "
+        "[start,end]: the source's own TODO in Sphere.BoundingBox), negative radius, rays whose direction is not of unit length (NewTemporalRay "
+        "normalises; a zero vector gives NaN), rectangle rays with direction.z = 0 (Go: +-Inf -> miss; origin in the plane: NaN distance "
+        "reported as a hit); (d) a multi-object NewBVHTree still has no model-vs-impl line (random axis), one-object nodes do (c16.prim.*); "
+        "(e) the Normal / UV / Material / FrontFace fields of the HitRecord are not modelled (Distance and Point are)",
+        "the slab test stays hand-modelled: go/xlate rejects AABB.intersectsRayInRangeComponent with 'store through pointer' (aabb.go:220); "
+        "no spec-level workaround exists (needs a translator feature: pointer out-parameters threaded as a result tuple)",
         "zero direction components: the slab model makes the IEEE outcome of 1/±0 explicit (origin strictly inside the widened slab: range "
         "unchanged; strictly outside: reject), so slab_mono / slab_sound and every ray theorem cover axis-parallel rays. The corner 'origin "
         "EXACTLY on a widened face with a zero component' (Go: 0*Inf = NaN; accepted for +0, rejected for -0) is covered under BOTH outcomes: "
@@ -66,7 +76,9 @@ CFG = dict(
         "TraverseIntersectingRay: traverse_visits_all_hits covers callbacks that leave *min/*max alone (this includes rendering.Mesh.Hit, whose "
         "callback only shortens its own captured max); traverse_monotone_callback covers callbacks that move the range only INTO the current "
         "range and not inside a floor range r*: visited ⊆ scan(initial range), scan(r*) ⊆ visited. Callbacks that widen the range are "
-        "modelled (Oct.traverse) but no theorem is stated for them. rendering.Mesh.Hit as a whole is checked by the oracle `octmesh` vs HitList",
+        "modelled (Oct.traverse) but no theorem is stated for them. rendering.Mesh.Hit / Hit2 (round 2): mesh_hit_eq_hitlist / mesh_built_hit_eq_hitlist "
+        "prove flag and distance equal to the exhaustive triangle loop for minDistance = 0 (model meshHit / meshHit2 tied by c16.mesh.hit); "
+        "the interpolated normal / UV of Mesh.Hit are not modelled",
         "negative maxDepth (unbounded recursion on coincident elements in Go) is outside the model: depth is a natural number",
     ],
     assumptions=["float64 arithmetic in Go on amd64 is IEEE-754 without FMA contraction"],
@@ -82,17 +94,23 @@ CFG = dict(
              "collapse, widening loop) builds a covering tree storing a permutation of the input; hence end-to-end equality with the scan over the "
              "input. BVH: Hit = HitList.Hit (flag and nearest distance) for every covering tree and any list order; NewBVHTree builds a covering "
              "tree for every axis choice and sort outcome; nearest hit through the octree = hit list — these for abstract primitives that hit only "
-             "where the slab test accepts their box and report their first hit exactly when within the range. Tie: AABB/plane code regenerated by the "
+             "where the slab test accepts their box and report their first hit exactly when within the range. Round 2: that contract is a theorem for "
+             "the real primitives — rendering.Sphere (static / linearly animated), XYRectangle, Triangle (Möller–Trumbore = Cramer's rule): hit point = "
+             "ray.At(Distance) lies inside BoundingBox(), Distance in range, first hit reported iff within range — so BVHNode.Hit = HitList.Hit on every "
+             "covering tree and on the tree NewBVHTree builds from any list of them, for every non-empty range (unit-direction ray; minDistance = 0 with "
+             "triangles), no primitive hypothesis; the point range [m,m] is proved to differ. rendering.Mesh.Hit and Hit2 (octree of triangles) = the "
+             "exhaustive triangle loop on the built octree. Tie: AABB/plane code regenerated by the "
              "translator; the Lean model run at Float on the same bits reproduces the real octree's root bounds, visit order of every query answer, "
              "closest element/distance/point and the slab test exactly (points, line strips, boxes, triangles; depths 0–6 and automatic; queries "
              "inside, outside, exactly on element vertices; axis-parallel rays incl. origins exactly on the widened face, both signs of zero). "
-             "Oracles: the real octree's answers against an exhaustive scan done by the Go harness through the same trees.Element interfaces "
+             "Primitives and Mesh: Hit / BoundingBox of spheres, rectangles, one-triangle BVH nodes, one-object NewBVHTree nodes and Mesh.Hit / Hit2 "
+             "reproduced bit-for-bit by Model/RenderPrims.lean (stream c16prims). Oracles: the real octree's answers against an exhaustive scan done by the Go harness through the same trees.Element interfaces "
              "(both id lists computed in Go, compared by the driver); rendering BVHNode.Hit / Mesh.Hit / Tree.Hit vs HitList.Hit and vs the "
              "per-primitive scan on triangles and spheres (minDistance = 0).",
         note="Trusted: Lean kernel + propext/Classical.choice/Quot.sound; translator; harness; hand transcription of octree.go / bvh.go / hit.go / the slab "
              "helper (tied bit-for-bit). Not proved: floating-point rounding (that the float tree satisfies Covers is observed; closest-element identity "
-             "is compared by distance with relative tolerance 1e-9: ties aside); that rendering.Triangle / Sphere satisfy the primitive contract "
-             "(oracle only; holds for minDistance = 0 only, see residue); the BVH has no model-vs-impl line (random shape). Corner: a ray with a zero "
+             "is compared by distance with relative tolerance 1e-9: ties aside); the primitive contract outside its proved domain (triangles with "
+             "minDistance != 0, non-linear sphere animation, point ranges min = max — proved to differ, see residue); a multi-object BVH has no model-vs-impl line (random shape). Corner: a ray with a zero "
              "direction component whose origin lies EXACTLY on a box's ε-widened face is sign-of-zero dependent in Go (NaN): both outcomes are "
              "covered by theorems (-0 reading = the model; +0 reading = intersectsRayInRangePos), the sign bit itself is not modelled over ℝ. Excluded by hypothesis: zero-length segments, zero-area triangles, boxes with negative extents, negative depth.",
         technique="Lean 4 proof (structural induction over covering trees, best-first search invariant, build invariant, barycentric argument) over "
